@@ -195,109 +195,201 @@ Proof.
   intros R e. unfold decide. assert (rc <? 0 = false) as -> by (apply Z.ltb_ge; exact R). destruct cb; reflexivity.
 Qed.
 
+(* ------------------------------------------------------------------ the repaired chain -> alert mapping (all versions) *)
+Lemma rank_range a : 0 <= rank a <= 3.
+Proof. unfold rank. repeat match goal with |- context [if ?b then _ else _] => destruct b end; lia. Qed.
+
+Lemma rank_zero a : rank a = 0 -> a = NONE.
+Proof.
+  unfold rank. destruct (a =? NONE) eqn:E; [intros _; apply Z.eqb_eq; exact E|].
+  repeat match goal with |- context [if ?b then _ else _] => destruct b end; lia.
+Qed.
+
+Lemma rank_alertset a : alertset a -> 1 <= rank a.
+Proof. unfold alertset. intros H. decompose [or] H; subst; vm_compute; discriminate. Qed.
+
+Lemma raise_cases e a : raise e a = e \/ raise e a = a.
+Proof. unfold raise. destruct (rank e <? rank a); auto. Qed.
+
+Lemma raise_rank e a : rank (raise e a) = Z.max (rank e) (rank a).
+Proof. unfold raise. destruct (rank e <? rank a) eqn:E; [apply Z.ltb_lt in E | apply Z.ltb_ge in E]; lia. Qed.
+
+Lemma raise_set e a : e = NONE \/ alertset e -> alertset a -> alertset (raise e a).
+Proof.
+  intros He Ha. unfold raise. destruct (rank e <? rank a) eqn:E; [exact Ha|].
+  destruct He as [-> | He]; [|exact He]. apply Z.ltb_ge in E. pose proof (rank_alertset _ Ha).
+  assert (rank NONE = 0) by reflexivity. lia.
+Qed.
+
+Lemma soft_split fl : Z.land fl soft_flags <> 0 ->
+  has_flag fl a_PS_CERT_AUTH_FAIL_DATE_FLAG = true \/ has_flag fl a_PS_CERT_AUTH_FAIL_SUBJECT_FLAG = true.
+Proof.
+  unfold soft_flags, has_flag. rewrite Z.land_lor_distr_r. intros H.
+  destruct (Z.land fl a_PS_CERT_AUTH_FAIL_DATE_FLAG =? 0) eqn:A; [|left; reflexivity].
+  destruct (Z.land fl a_PS_CERT_AUTH_FAIL_SUBJECT_FLAG =? 0) eqn:B; [|right; reflexivity].
+  apply Z.eqb_eq in A, B. rewrite A, B in H. exfalso. apply H. reflexivity.
+Qed.
+
+Lemma in_app3 {A} (x : A) l1 l2 l3 : In x (l1 ++ l2 ++ l3) -> In x l1 \/ In x l2 \/ In x l3.
+Proof. intros H. apply in_app_or in H as [H | H]; [auto|]. apply in_app_or in H as [H | H]; auto. Qed.
+
+Ltac alset := unfold alertset; tauto.
+
+Lemma cert_raise_spec c hn e : e = NONE \/ alertset e ->
+  (cert_raise c hn e = NONE \/ alertset (cert_raise c hn e)) /\
+  rank e <= rank (cert_raise c hn e) /\
+  (cv_status c = a_PS_CERT_AUTH_PASS -> cert_raise c hn e = e) /\
+  (cv_status c <> a_PS_CERT_AUTH_PASS -> alertset (cert_raise c hn e)) /\
+  (forall d, In d (cert_defects c hn) -> rank d <= rank (cert_raise c hn e)).
+Proof.
+  intros He. unfold cert_raise, cert_defects.
+  destruct (cv_status c =? a_PS_CERT_AUTH_PASS) eqn:SP.
+  { apply Z.eqb_eq in SP. split; [exact He|]. split; [lia|]. split; [intros _; reflexivity|]. split; [intros X; contradiction | intros d []]. }
+  apply Z.eqb_neq in SP.
+  assert (forall a, alertset a ->
+            (raise e a = NONE \/ alertset (raise e a)) /\ rank e <= rank (raise e a) /\
+            (cv_status c = a_PS_CERT_AUTH_PASS -> raise e a = e) /\ (cv_status c <> a_PS_CERT_AUTH_PASS -> alertset (raise e a)) /\
+            (forall d, In d [a] -> rank d <= rank (raise e a))) as ONE.
+  { intros a Ha. pose proof (raise_set e a He Ha) as RS. rewrite raise_rank.
+    split; [right; exact RS|]. split; [lia|]. split; [intros X; contradiction|]. split; [intros _; exact RS|]. intros d [<- | []]. lia. }
+  destruct (cv_status c =? a_PS_CERT_AUTH_FAIL_REVOKED); [apply ONE; alset|].
+  destruct (cv_status c =? a_PS_CERT_AUTH_FAIL_EXTENSION).
+  2:{ destruct ((cv_status c =? a_PS_CERT_AUTH_FAIL_BC) || (cv_status c =? a_PS_CERT_AUTH_FAIL_DN)); [destruct hn|]; apply ONE; alset. }
+  (* FAIL_EXTENSION: up to three raises *)
+  set (a1 := if hn then a_SSL_ALERT_BAD_CERTIFICATE else a_SSL_ALERT_ILLEGAL_PARAMETER).
+  assert (alertset a1) as Ha1 by (unfold a1; destruct hn; alset).
+  set (e1 := if ext_other (cv_flags c) then raise e a1 else e).
+  set (e2 := if has_flag (cv_flags c) a_PS_CERT_AUTH_FAIL_SUBJECT_FLAG then raise e1 a_SSL_ALERT_CERTIFICATE_UNKNOWN else e1).
+  set (e3 := if has_flag (cv_flags c) a_PS_CERT_AUTH_FAIL_DATE_FLAG then raise e2 a_SSL_ALERT_CERTIFICATE_EXPIRED else e2).
+  assert (alertset a_SSL_ALERT_CERTIFICATE_UNKNOWN) as HU by alset. assert (alertset a_SSL_ALERT_CERTIFICATE_EXPIRED) as HX by alset.
+  assert ((e1 = NONE \/ alertset e1) /\ rank e <= rank e1) as [S1 R1].
+  { unfold e1. destruct (ext_other (cv_flags c)); [split; [right; apply raise_set; assumption | rewrite raise_rank; lia] | split; [exact He | lia]]. }
+  assert ((e2 = NONE \/ alertset e2) /\ rank e1 <= rank e2) as [S2 R2].
+  { unfold e2. destruct (has_flag (cv_flags c) a_PS_CERT_AUTH_FAIL_SUBJECT_FLAG); [split; [right; apply raise_set; assumption | rewrite raise_rank; lia] | split; [exact S1 | lia]]. }
+  assert ((e3 = NONE \/ alertset e3) /\ rank e2 <= rank e3) as [S3 R3].
+  { unfold e3. destruct (has_flag (cv_flags c) a_PS_CERT_AUTH_FAIL_DATE_FLAG); [split; [right; apply raise_set; assumption | rewrite raise_rank; lia] | split; [exact S2 | lia]]. }
+  split; [exact S3|]. split; [lia|]. split; [intros X; contradiction|]. split.
+  - intros _. (* at least one of the three raises happened *)
+    destruct (ext_other (cv_flags c)) eqn:EO.
+    + assert (alertset e1) as A1 by (unfold e1; apply raise_set; assumption).
+      assert (alertset e2) as A2 by (unfold e2; destruct (has_flag (cv_flags c) a_PS_CERT_AUTH_FAIL_SUBJECT_FLAG); [apply raise_set; auto | exact A1]).
+      unfold e3; destruct (has_flag (cv_flags c) a_PS_CERT_AUTH_FAIL_DATE_FLAG); [apply raise_set; auto | exact A2].
+    + unfold ext_other in EO. apply orb_false_iff in EO as [_ EO]. apply Z.eqb_neq in EO. apply soft_split in EO as [D | S].
+      * unfold e3. rewrite D. apply raise_set; auto.
+      * assert (alertset e2) as A2 by (unfold e2; rewrite S; apply raise_set; auto).
+        unfold e3; destruct (has_flag (cv_flags c) a_PS_CERT_AUTH_FAIL_DATE_FLAG); [apply raise_set; auto | exact A2].
+  - intros d H. apply in_app3 in H as [H | [H | H]].
+    + fold a1 in H. destruct (ext_other (cv_flags c)) eqn:EO; [|destruct H]. destruct H as [<- | []].
+      assert (rank a1 <= rank e1) by (unfold e1; cbv iota; rewrite raise_rank; lia). lia.
+    + destruct (has_flag (cv_flags c) a_PS_CERT_AUTH_FAIL_SUBJECT_FLAG) eqn:S; [|destruct H]. destruct H as [<- | []].
+      assert (rank a_SSL_ALERT_CERTIFICATE_UNKNOWN <= rank e2) by (unfold e2; cbv iota; rewrite raise_rank; lia). lia.
+    + destruct (has_flag (cv_flags c) a_PS_CERT_AUTH_FAIL_DATE_FLAG) eqn:D; [|destruct H]. destruct H as [<- | []].
+      unfold e3. cbv iota. rewrite raise_rank. lia.
+Qed.
+
+Lemma chain_alert_spec : forall cs maxd pl err e cs', err = NONE \/ alertset err -> chain_alert maxd pl err cs = (e, cs') ->
+  marked maxd pl cs cs' /\ (e = NONE \/ alertset e) /\ rank err <= rank e /\
+  (any_exceeded maxd pl cs = true -> rank e = 3) /\
+  (all_pass cs = false -> alertset e) /\
+  (e <> NONE -> err <> NONE \/ any_exceeded maxd pl cs = true \/ all_pass cs = false) /\
+  (forall d, In d (chain_defects cs) -> rank d <= rank e).
+Proof.
+  induction cs as [|c r IH]; intros maxd pl err e cs' He H; cbn [chain_alert] in H.
+  - inversion H; subst. cbn. repeat split; auto; try constructor; try lia; try discriminate.
+  - cbn [any_exceeded all_pass forallb chain_defects]. fold (all_pass r).
+    destruct (depth_exceeded maxd (pl + 1) c) eqn:EX.
+    + (* depth exceeded at this certificate: unknown_ca raised, certificate marked *)
+      assert (alertset (raise err a_SSL_ALERT_UNKNOWN_CA)) as A1 by (apply raise_set; [exact He | alset]).
+      assert (rank (raise err a_SSL_ALERT_UNKNOWN_CA) = 3) as R1.
+      { rewrite raise_rank. pose proof (rank_range err). assert (rank a_SSL_ALERT_UNKNOWN_CA = 3) by reflexivity. lia. }
+      destruct (cert_raise_spec (mark_depth c) (has_next r) _ (or_intror A1)) as [S2 [R2 [_ [N2 _]]]].
+      specialize (N2 (mark_not_pass c)).
+      destruct (chain_alert maxd (pl + 1) (cert_raise (mark_depth c) (has_next r) (raise err a_SSL_ALERT_UNKNOWN_CA)) r) as [e1 r1] eqn:W.
+      inversion H; subst. destruct (IH _ _ _ _ _ (or_intror N2) W) as [M [K1 [K2 _]]].
+      pose proof (rank_range e) as RR. assert (rank e = 3) as R3 by lia.
+      assert (alertset e) as AE. { destruct K1 as [K1 | K1]; [subst e; vm_compute in R3; discriminate | exact K1]. }
+      split; [apply mk_mark; [exact EX | exact M]|]. split; [right; exact AE|]. split; [pose proof (rank_range err); lia|].
+      split; [intros _; exact R3|]. split; [intros _; exact AE|]. split; [intros _; right; left; reflexivity|].
+      intros d _. pose proof (rank_range d). lia.
+    + destruct (cert_raise_spec c (has_next r) err He) as [S2 [R2 [P2 [N2 D2]]]].
+      destruct (chain_alert maxd (pl + 1) (cert_raise c (has_next r) err) r) as [e1 r1] eqn:W.
+      inversion H; subst. destruct (IH _ _ _ _ _ S2 W) as [M [K1 [K2 [K3 [K4 [K5 K6]]]]]].
+      split; [apply mk_same; exact M|]. split; [exact K1|]. split; [lia|]. split; [cbn [orb]; exact K3|]. split; [|split].
+      * intros X. apply andb_false_iff in X as [X | X]; [|exact (K4 X)].
+        apply Z.eqb_neq in X. specialize (N2 X). pose proof (rank_alertset _ N2).
+        destruct K1 as [K1 | K1]; [subst e; assert (rank NONE = 0) by reflexivity; lia | exact K1].
+      * intros X. destruct (K5 X) as [A | [A | A]].
+        -- destruct (Z.eq_dec (cv_status c) a_PS_CERT_AUTH_PASS) as [Q | Q].
+           ++ rewrite (P2 Q) in A. left. exact A.
+           ++ right. right. apply Z.eqb_neq in Q. rewrite Q. reflexivity.
+        -- right. left. exact A.
+        -- right. right. rewrite A. apply andb_false_r.
+      * intros d X. apply in_app_or in X as [X | X]; [specialize (D2 d X); lia | exact (K6 d X)].
+Qed.
+
+(* the tail of both versions only looks at the sign of rc *)
+Lemma decide_sign fx r1 r2 err cb : (r1 <? 0) = (r2 <? 0) -> decide fx r1 err cb = decide fx r2 err cb.
+Proof. intros H. unfold decide. rewrite H. reflexivity. Qed.
+
+Theorem versions_identical : forall v cb, cert_run12 fixed v cb = cert_run13 fixed v cb.
+Proof.
+  intros v cb. unfold cert_run12, cert_run13. destruct (v_rc v =? a_PS_MEM_FAIL); [reflexivity|].
+  cbn [fx_severity fx_status fixed andb]. destruct (chain_alert_full v) as [err cs].
+  apply decide_sign.
+  destruct (v_rc v <? 0) eqn:R.
+  - assert ((0 <=? v_rc v) = false) as -> by (apply Z.leb_gt, Z.ltb_lt; exact R). cbn [andb]. rewrite R. reflexivity.
+  - assert ((0 <=? v_rc v) = true) as -> by (apply Z.leb_le, Z.ltb_ge; exact R). cbn [andb].
+    destruct (err =? NONE) eqn:E; cbn [negb orb].
+    + assert ((0 <=? a_PS_SUCCESS) = true) as -> by reflexivity. cbn [andb].
+      destruct (all_pass cs); cbn [negb]; [rewrite R; reflexivity | reflexivity].
+    + assert ((0 <=? a_MATRIXSSL_ERROR) = false) as -> by reflexivity. reflexivity.
+Qed.
+
 Lemma run12_shape v cb : v_rc v <> a_PS_MEM_FAIL ->
   exists e, cert_run12 fixed v cb = shape (auth_failure_b v) e cb /\ (auth_failure_b v = true -> alertset e).
 Proof.
-  intros NM. unfold cert_run12. apply Z.eqb_neq in NM. rewrite NM.
-  destruct (walk12 (v_maxdepth v) 0 NONE (v_chain v)) as [err cs] eqn:W.
-  destruct (walk12_spec _ _ _ _ _ _ W) as [M [_ [K2 [K3 K4]]]].
+  intros NM. unfold cert_run12. apply Z.eqb_neq in NM. rewrite NM. cbn [fx_severity fx_status fixed andb].
+  unfold chain_alert_full.
+  destruct (chain_alert (v_maxdepth v) 0 NONE (v_chain v)) as [e0 cs] eqn:W.
+  destruct (chain_alert_spec _ _ _ _ _ _ (or_introl eq_refl) W) as [M [K1 [_ [K3 [K4 [K5 _]]]]]].
   destruct (marked_all_pass _ _ _ _ M) as [P1 P2].
-  specialize (K4 (or_introl eq_refl)). cbn [fx_status fixed andb].
+  set (err := if v_ca v then e0 else raise e0 a_SSL_ALERT_UNKNOWN_CA).
+  assert (err = NONE \/ alertset err) as SE.
+  { unfold err. destruct (v_ca v); [exact K1 | right; apply raise_set; [exact K1 | alset]]. }
   unfold auth_failure_b.
   destruct (err =? NONE) eqn:EN.
-  - (* no alert from the walk *)
-    apply Z.eqb_eq in EN. subst err. cbn [andb negb orb].
+  - apply Z.eqb_eq in EN.
+    assert (v_ca v = true) as CA.
+    { destruct (v_ca v) eqn:C; [reflexivity|]. unfold err in EN.
+      assert (alertset (raise e0 a_SSL_ALERT_UNKNOWN_CA)) as A by (apply raise_set; [exact K1 | alset]).
+      rewrite EN in A. apply alertset_pos in A. tauto. }
+    assert (e0 = NONE) as E0 by (unfold err in EN; rewrite CA in EN; exact EN).
     assert (any_exceeded (v_maxdepth v) 0 (v_chain v) = false) as AE.
-    { destruct (any_exceeded (v_maxdepth v) 0 (v_chain v)) eqn:X; [exfalso; apply (K2 eq_refl); reflexivity | reflexivity]. }
-    rewrite AE, orb_false_r.
-    destruct (v_ca v) eqn:CA; cbn [negb andb orb].
-    + rewrite orb_false_r. destruct (v_rc v <? 0) eqn:R.
-      * cbn [orb]. assert (0 <=? v_rc v = false) as -> by (apply Z.leb_gt, Z.ltb_lt; exact R). cbn [andb].
-        apply Z.ltb_lt in R. destruct (decide_fail (v_rc v) NONE cb R (or_introl eq_refl)) as [e [E A]].
-        exists e. split; [exact E | intros _; exact A].
-      * assert (0 <=? v_rc v = true) as -> by (apply Z.leb_le, Z.ltb_ge; exact R). cbn [andb orb].
-        destruct (all_pass cs) eqn:AP.
-        -- rewrite (P1 eq_refl). cbn [negb]. exists 0. split; [|discriminate].
-           apply decide_ok. apply Z.ltb_ge. exact R.
-        -- destruct (P2 eq_refl) as [X | X]; [|rewrite X in AE; discriminate]. rewrite X. cbn [negb].
-           assert (a_PS_CERT_AUTH_FAIL < 0) as L by (consts; lia).
-           destruct (decide_fail _ NONE cb L (or_introl eq_refl)) as [e [E A]]. exists e. split; [exact E | intros _; exact A].
-    + rewrite orb_true_r.
-      assert (a_SSL_ALERT_UNKNOWN_CA =? NONE = false) as -> by reflexivity. cbn [negb orb andb].
-      assert ((0 <=? -1) = false) as -> by reflexivity. cbn [andb].
-      assert (-1 < 0) as L by lia.
-      destruct (decide_fail _ a_SSL_ALERT_UNKNOWN_CA cb L) as [e [E A]]; [right; unfold alertset; tauto|].
+    { destruct (any_exceeded (v_maxdepth v) 0 (v_chain v)); [specialize (K3 eq_refl); rewrite E0 in K3; vm_compute in K3; discriminate | reflexivity]. }
+    assert (all_pass (v_chain v) = true) as AP.
+    { destruct (all_pass (v_chain v)); [reflexivity | specialize (K4 eq_refl); rewrite E0 in K4; apply alertset_pos in K4; tauto]. }
+    assert (all_pass cs = true) as APS.
+    { destruct (all_pass cs) eqn:X; [reflexivity|]. destruct (P2 eq_refl) as [Y | Y]; [rewrite AP in Y | rewrite AE in Y]; discriminate. }
+    rewrite AP, CA, AE, APS, EN. cbn [negb orb]. rewrite !orb_false_r, andb_false_r.
+    destruct (v_rc v <? 0) eqn:R.
+    + apply Z.ltb_lt in R. destruct (decide_fail (v_rc v) NONE cb R (or_introl eq_refl)) as [e [E A]].
       exists e. split; [exact E | intros _; exact A].
-  - (* the walk chose an alert *)
-    cbn [andb negb orb]. rewrite ?EN. cbn [andb negb orb]. apply Z.eqb_neq in EN.
-    destruct K4 as [K4 | K4]; [contradiction|].
+    + exists 0. split; [|discriminate]. apply decide_ok. apply Z.ltb_ge. exact R.
+  - apply Z.eqb_neq in EN. destruct SE as [SE | SE]; [contradiction|]. cbn [negb orb]. rewrite andb_true_r.
     assert ((v_rc v <? 0) || negb (all_pass (v_chain v)) || negb (v_ca v) || any_exceeded (v_maxdepth v) 0 (v_chain v) = true) as ->.
-    { destruct (K3 EN) as [X | [X | X]]; [exfalso; apply X; reflexivity | rewrite X; apply orb_true_r | rewrite X].
+    { destruct (v_ca v) eqn:C; [|cbn [negb]; rewrite orb_true_r; reflexivity].
+      unfold err in EN. destruct (K5 EN) as [X | [X | X]]; [exfalso; apply X; reflexivity | rewrite X; apply orb_true_r | rewrite X].
       cbn [negb]. rewrite orb_true_r. reflexivity. }
-    assert (exists rc, rc < 0 /\ (if (0 <=? v_rc v) && true then a_PS_CERT_AUTH_FAIL else v_rc v) = rc) as [rc [L ->]].
-    { destruct (0 <=? v_rc v) eqn:R; cbn [andb].
+    assert (exists rc, rc < 0 /\ (if 0 <=? v_rc v then a_PS_CERT_AUTH_FAIL else v_rc v) = rc) as [rc [L ->]].
+    { destruct (0 <=? v_rc v) eqn:R.
       - exists a_PS_CERT_AUTH_FAIL. split; [consts; lia | reflexivity].
       - exists (v_rc v). split; [apply Z.leb_gt; exact R | reflexivity]. }
-    destruct (decide_fail rc err cb L (or_intror K4)) as [e [E A]]. exists e. split; [exact E | intros _; exact A].
+    destruct (decide_fail rc err cb L (or_intror SE)) as [e [E A]]. exists e. split; [exact E | intros _; exact A].
 Qed.
 
 Lemma run13_shape v cb : v_rc v <> a_PS_MEM_FAIL ->
   exists e, cert_run13 fixed v cb = shape (auth_failure_b v) e cb /\ (auth_failure_b v = true -> alertset e).
-Proof.
-  intros NM. unfold cert_run13. apply Z.eqb_neq in NM. rewrite NM.
-  destruct (pathlen13 (v_maxdepth v) 0 NONE (v_chain v)) as [err0 cs] eqn:W.
-  destruct (pathlen13_spec _ _ _ _ _ _ W) as [M [_ [K2 [K3 K4]]]].
-  destruct (marked_all_pass _ _ _ _ M) as [P1 P2].
-  specialize (K4 (or_introl eq_refl)).
-  destruct (result13_spec cs err0) as [R1 [R2 R3]]. specialize (R3 K4).
-  cbn [fx_status fx_noca13 fixed andb]. unfold auth_failure_b.
-  set (err := result13 err0 cs) in *.
-  destruct (err =? NONE) eqn:EN.
-  - apply Z.eqb_eq in EN.
-    assert (err0 = NONE) as E0. { destruct (Z.eq_dec err0 NONE) as [X | X]; [exact X | exfalso; apply (R1 X); exact EN]. }
-    assert (any_exceeded (v_maxdepth v) 0 (v_chain v) = false) as AE.
-    { destruct (any_exceeded (v_maxdepth v) 0 (v_chain v)) eqn:X; [exfalso; apply (K2 eq_refl); exact E0 | reflexivity]. }
-    rewrite AE, orb_false_r. rewrite EN.
-    destruct (v_rc v <? 0) eqn:R; cbn [orb].
-    + (* validator failed *)
-      assert ((0 <=? v_rc v) = false) as -> by (apply Z.leb_gt, Z.ltb_lt; exact R). cbn [andb].
-      apply Z.ltb_lt in R.
-      destruct (negb (v_ca v)) eqn:CA; cbn [andb].
-      * assert (a_MATRIXSSL_ERROR < 0) as L by (consts; lia).
-        destruct (decide_fail _ a_SSL_ALERT_UNKNOWN_CA cb L) as [e [E A]]; [right; unfold alertset; tauto|].
-        exists e. split; [exact E | intros _; exact A].
-      * destruct (decide_fail (v_rc v) NONE cb R (or_introl eq_refl)) as [e [E A]]. exists e. split; [exact E | intros _; exact A].
-    + assert ((0 <=? a_PS_SUCCESS) = true) as -> by reflexivity. cbn [andb].
-      destruct (all_pass cs) eqn:AP; cbn [negb].
-      * rewrite (P1 eq_refl). cbn [negb orb].
-        destruct (negb (v_ca v)) eqn:CA; cbn [andb].
-        -- assert (a_MATRIXSSL_ERROR < 0) as L by (consts; lia).
-           destruct (decide_fail _ a_SSL_ALERT_UNKNOWN_CA cb L) as [e [E A]]; [right; unfold alertset; tauto|].
-           exists e. split; [exact E | intros _; exact A].
-        -- exists 0. split; [|discriminate]. apply decide_ok. consts; lia.
-      * destruct (P2 eq_refl) as [X | X]; [|rewrite X in AE; discriminate]. rewrite X. cbn [negb orb].
-        destruct (negb (v_ca v)) eqn:CA; cbn [andb].
-        -- assert (a_MATRIXSSL_ERROR < 0) as L by (consts; lia).
-           destruct (decide_fail _ a_SSL_ALERT_UNKNOWN_CA cb L) as [e [E A]]; [right; unfold alertset; tauto|].
-           exists e. split; [exact E | intros _; exact A].
-        -- assert (a_PS_CERT_AUTH_FAIL < 0) as L by (consts; lia).
-           destruct (decide_fail _ NONE cb L (or_introl eq_refl)) as [e [E A]]. exists e. split; [exact E | intros _; exact A].
-  - apply Z.eqb_neq in EN. destruct R3 as [R3 | R3]; [contradiction|].
-    assert ((v_rc v <? 0) || negb (all_pass (v_chain v)) || negb (v_ca v) || any_exceeded (v_maxdepth v) 0 (v_chain v) = true) as ->.
-    { destruct (R2 EN) as [X | X].
-      - destruct (K3 X) as [Y | Y]; [exfalso; apply Y; reflexivity | rewrite Y; apply orb_true_r].
-      - destruct (P2 X) as [Y | Y]; [rewrite Y; cbn [negb]; rewrite orb_true_r; reflexivity | rewrite Y; apply orb_true_r]. }
-    cbn [andb].
-    assert (exists rc, rc < 0 /\
-      (if (0 <=? (if v_rc v <? 0 then v_rc v else a_MATRIXSSL_ERROR)) && negb (all_pass cs) then a_PS_CERT_AUTH_FAIL
-       else if v_rc v <? 0 then v_rc v else a_MATRIXSSL_ERROR) = rc) as [rc [L ->]].
-    { destruct (v_rc v <? 0) eqn:R.
-      - assert ((0 <=? v_rc v) = false) as -> by (apply Z.leb_gt, Z.ltb_lt; exact R). cbn [andb].
-        exists (v_rc v). split; [apply Z.ltb_lt; exact R | reflexivity].
-      - assert ((0 <=? a_MATRIXSSL_ERROR) = false) as -> by reflexivity. cbn [andb].
-        exists a_MATRIXSSL_ERROR. split; [consts; lia | reflexivity]. }
-    destruct (decide_fail rc err cb L (or_intror R3)) as [e [E A]]. exists e. split; [exact E | intros _; exact A].
-Qed.
+Proof. intros NM. rewrite <- versions_identical. apply run12_shape. exact NM. Qed.
 
 (* ------------------------------------------------------------------ the boolean failure test is the spec's notion *)
 Lemma any_exceeded_depth : forall cs maxd pl, 0 < maxd -> pl <= maxd ->
@@ -444,6 +536,46 @@ Proof.
         intros an H. apply user_validate_continue in H. rewrite Z.eqb_refl in H. exact H.
 Qed.
 
+(* ------------------------------------------------------------------ the alert given to the callback is the most severe defect *)
+Lemma decide_arg rc err f : err = NONE \/ alertset err ->
+  exists e', fst (decide fixed rc err (Some f)) = Some (if e' =? NONE then 0 else e') /\ (e' = NONE \/ alertset e') /\ rank err <= rank e'.
+Proof.
+  intros SE. unfold decide. cbn [fx_cbalert fixed andb is_none].
+  assert (alertset a_SSL_ALERT_BAD_CERTIFICATE) as AB by alset.
+  destruct (rc <? 0); [destruct (err =? NONE) eqn:E|].
+  - exists a_SSL_ALERT_BAD_CERTIFICATE. split; [reflexivity|]. split; [right; exact AB|]. apply Z.eqb_eq in E. subst err.
+    pose proof (rank_alertset _ AB). assert (rank NONE = 0) by reflexivity. lia.
+  - exists err. split; [reflexivity|]. split; [exact SE | lia].
+  - exists err. split; [reflexivity|]. split; [exact SE | lia].
+Qed.
+
+Lemma arg_severity_of e' : e' = NONE \/ alertset e' -> arg_severity (if e' =? NONE then 0 else e') = rank e'.
+Proof.
+  intros [-> | A]; [reflexivity|]. pose proof (alertset_pos _ A) as [P N]. apply Z.eqb_neq in N. rewrite N.
+  unfold arg_severity. assert (e' =? 0 = false) as -> by (apply Z.eqb_neq; lia). reflexivity.
+Qed.
+
+Theorem alert_most_severe : forall v f a d, v_rc v <> a_PS_MEM_FAIL ->
+  cb_arg12 v (Some f) = Some a -> is_defect v d -> severity d <= arg_severity a.
+Proof.
+  intros v f a d NM HA HD. unfold cb_arg12, cert_run12 in HA. apply Z.eqb_neq in NM. rewrite NM in HA.
+  cbn [fx_severity fx_status fixed andb] in HA. unfold chain_alert_full in HA.
+  destruct (chain_alert (v_maxdepth v) 0 NONE (v_chain v)) as [e0 cs] eqn:W.
+  destruct (chain_alert_spec _ _ _ _ _ _ (or_introl eq_refl) W) as [_ [K1 [_ [K3 [_ [_ K7]]]]]].
+  set (err := if v_ca v then e0 else raise e0 a_SSL_ALERT_UNKNOWN_CA) in *.
+  assert (err = NONE \/ alertset err) as SE.
+  { unfold err. destruct (v_ca v); [exact K1 | right; apply raise_set; [exact K1 | alset]]. }
+  assert (rank e0 <= rank err) as RE by (unfold err; destruct (v_ca v); [lia | rewrite raise_rank; lia]).
+  match type of HA with fst (decide fixed ?rc err (Some f)) = _ => destruct (decide_arg rc err f SE) as [e' [HE [SE' RR]]] end.
+  rewrite HE in HA. inversion HA; subst a. rewrite (arg_severity_of _ SE'). unfold severity.
+  pose proof (rank_range d) as RD.
+  destruct HD as [HD | [[HD ->] | [HD ->]]].
+  - specialize (K7 d HD). lia.
+  - apply too_deep_iff in HD. specialize (K3 HD). lia.
+  - unfold no_anchor in HD. unfold err in RR. rewrite HD in RR. rewrite raise_rank in RR.
+    assert (rank a_SSL_ALERT_UNKNOWN_CA = 3) by reflexivity. lia.
+Qed.
+
 (* ------------------------------------------------------------------ proof of possession: invariant of the machine *)
 Lemma prefix_refl l : prefix l l.
 Proof. induction l; cbn; auto. Qed.
@@ -466,13 +598,22 @@ Section PopProof.
 
   Definition alive (p : phase) : bool := match p with PDead _ => false | _ => true end.
 
-  Definition Inv (s : pst) : Prop :=
-    alive (ph s) = true ->
+  Definition InvB (s : pst) : Prop :=
+    (alive (ph s) = true ->
     (ph s = PWaitCert -> pops s = []) /\
     (ph s <> PWaitCert -> exists k, leaf s = Some k) /\
     (forall e, In e (pops s) -> good_event s e) /\
     (ph s = PWaitShd \/ ph s = PWaitFin -> kt_mode = true \/ pops s <> []) /\
-    (ph s = PDone -> pops s <> []).
+    (ph s = PDone -> pops s <> [])).
+  Definition Inv (s : pst) : Prop := ph s <> PHello /\ InvB s.
+
+  Lemma step_not_hello s m : ph s <> PHello -> ph (step sig_ok fin_ok c s m) <> PHello.
+  Proof.
+    intros H. unfold step. destruct (ph s) eqn:P; try contradiction; rewrite <- ?P;
+      repeat match goal with
+             | |- context [match ?x with _ => _ end] => destruct x
+             end; cbn; try discriminate; try (rewrite P; discriminate).
+  Qed.
 
   Lemma good_event_ext s s' e : leaf s' = leaf s -> (exists x, tr s' = tr s ++ x) -> good_event s e -> good_event s' e.
   Proof.
@@ -489,8 +630,8 @@ Section PopProof.
 
   Lemma step_inv s m : Inv s -> Inv (step sig_ok fin_ok c s m).
   Proof.
-    intros HI. unfold step.
-    destruct (ph s) eqn:P; try exact HI;
+    intros [NH HI]. split; [apply step_not_hello; exact NH|]. unfold InvB at 1. unfold step.
+    destruct (ph s) eqn:P; try exact HI; try (exfalso; apply NH; reflexivity);
       try (destruct m; try (intros X; discriminate X)).
     - (* PWaitCert, MCertificate *)
       destruct (match p_ver c with V12 => cert_outcome12 v (p_cb c) | V13 => cert_outcome13 v (p_cb c) end) as [an | a];
@@ -571,12 +712,11 @@ Section PopProof.
   Proof. induction ms as [|m r IH]; intros s H; [exact H | cbn; apply IH, step_inv, H]. Qed.
 
   Lemma init_inv t0 : Inv (init t0).
-  Proof. intros _. cbn. inv5; [reflexivity | intros X; exfalso; apply X; reflexivity | intros e [] | intros [X | X]; discriminate X | intros X; discriminate X]. Qed.
+  Proof. split; [cbn; discriminate|]. intros _. cbn. inv5; [reflexivity | intros X; exfalso; apply X; reflexivity | intros e [] | intros [X | X]; discriminate X | intros X; discriminate X]. Qed.
 
-  Theorem pop_on_done : forall t0 ms, let s := run sig_ok fin_ok c t0 ms in
-    ph s = PDone -> exists k, leaf s = Some k /\ possession_proved sig_ok fin_ok c s k.
+  Lemma inv_done s : Inv s -> ph s = PDone -> exists k, leaf s = Some k /\ possession_proved sig_ok fin_ok c s k.
   Proof.
-    intros t0 ms s D. pose proof (run_inv ms _ (init_inv t0)) as HI. fold (run sig_ok fin_ok c t0 ms) in HI. fold s in HI.
+    intros [_ HI] D.
     destruct (HI ltac:(rewrite D; reflexivity)) as [_ [[k L] [I2 [_ I4]]]]; [rewrite D; discriminate|].
     exists k. split; [exact L|]. specialize (I4 D).
     destruct (pops s) as [|e r] eqn:PE; [contradiction|].
@@ -584,6 +724,72 @@ Section PopProof.
     destruct e as [k' alg d sg | k' t vd]; cbn in I2.
     - destruct I2 as [G1 [G2 [G3 G4]]]. rewrite L in G1. inversion G1; subst. auto.
     - destruct I2 as [G1 [G2 G3]]. rewrite L in G1. inversion G1; subst. auto.
+  Qed.
+
+  Theorem pop_on_done : forall t0 ms, let s := run sig_ok fin_ok c t0 ms in
+    ph s = PDone -> exists k, leaf s = Some k /\ possession_proved sig_ok fin_ok c s k.
+  Proof. intros t0 ms s D. apply inv_done; [|exact D]. apply run_inv, init_inv. Qed.
+
+  (* ---- from the ClientHello on: the requirement "authenticate the client" is dropped by a successful resumption only *)
+  Definition InvH (s : pst) : Prop :=
+    alive (ph s) = true ->
+    (ph s = PHello /\ pops s = [] /\ resumed s = None) \/ (ph s <> PHello /\ exists b, resumed s = Some b) \/ Inv s.
+
+  Lemma step_resumed s m : ph s <> PHello -> resumed (step sig_ok fin_ok c s m) = resumed s.
+  Proof.
+    intros H. unfold step. destruct (ph s) eqn:P; try contradiction;
+      repeat match goal with
+             | |- context [match ?x with _ => _ end] => destruct x
+             end; reflexivity.
+  Qed.
+
+  Lemma alive_step s m : alive (ph (step sig_ok fin_ok c s m)) = true -> alive (ph s) = true.
+  Proof. unfold step. destruct (ph s) eqn:P; try reflexivity. intros X. rewrite P in X. exact X. Qed.
+
+  Lemma stepH s m : InvH s -> InvH (step sig_ok fin_ok c s m).
+  Proof.
+    intros HI A. destruct (HI (alive_step _ _ A)) as [[P [E R]] | [[NH [b R]] | I]].
+    - unfold step in *. rewrite P in *. destruct m; try discriminate A.
+      destruct (p_role c); [discriminate A|]. destruct hit as [b|].
+      + right. left. cbn. split; [discriminate | eauto].
+      + right. right. split; [cbn; discriminate|]. intros _. cbn [adv ph leaf pops tr]. rewrite E.
+        inv5; [reflexivity | intros X; exfalso; apply X; reflexivity | intros e [] | intros [X | X]; discriminate X | intros X; discriminate X].
+    - right. left. split; [apply step_not_hello; exact NH|]. exists b. rewrite step_resumed; assumption.
+    - right. right. apply step_inv. exact I.
+  Qed.
+
+  Lemma runH ms : forall s, InvH s -> InvH (fold_left (step sig_ok fin_ok c) ms s).
+  Proof. induction ms as [|m r IH]; intros s H; [exact H | cbn; apply IH, stepH, H]. Qed.
+
+  Theorem auth_not_dropped : forall ms, let s := run_hello sig_ok fin_ok c ms in
+    ph s = PDone ->
+    (exists b, resumed s = Some b) \/ (exists k, leaf s = Some k /\ possession_proved sig_ok fin_ok c s k).
+  Proof.
+    intros ms s D. assert (InvH init_hello) as H0 by (intros _; left; cbn; auto).
+    pose proof (runH ms _ H0) as HI. fold (run_hello sig_ok fin_ok c ms) in HI. fold s in HI.
+    destruct (HI ltac:(rewrite D; reflexivity)) as [[P _] | [[_ R] | I]].
+    - rewrite D in P. discriminate P.
+    - left. exact R.
+    - right. apply inv_done; assumption.
+  Qed.
+
+  Lemma fold_resumed ms : forall s, ph s <> PHello -> resumed (fold_left (step sig_ok fin_ok c) ms s) = resumed s.
+  Proof.
+    induction ms as [|m r IH]; intros s H; [reflexivity|]. cbn. rewrite IH; [apply step_resumed; exact H | apply step_not_hello; exact H].
+  Qed.
+
+  (* the resumed session is the one the lookup of the ClientHello's offer answered with - nothing else sets the field *)
+  Theorem resumed_only_by_lookup : forall ms b, resumed (run_hello sig_ok fin_ok c ms) = Some b ->
+    p_role c = VServer /\ exists rest, ms = MClientHello (Some b) :: rest.
+  Proof.
+    intros ms b. unfold run_hello. destruct ms as [|m rest]; [cbn; discriminate|]. cbn [fold_left].
+    assert (forall s1, ph s1 <> PHello -> resumed s1 = None -> resumed (fold_left (step sig_ok fin_ok c) rest s1) = Some b -> False) as K.
+    { intros s1 H1 H2 H3. rewrite fold_resumed in H3 by exact H1. rewrite H2 in H3. discriminate. }
+    unfold step at 2. cbn [ph init_hello].
+    destruct m; try (intros H; exfalso; eapply K; [| | exact H]; [cbn; discriminate | reflexivity]).
+    destruct (p_role c) eqn:R; [intros H; exfalso; eapply K; [| | exact H]; [cbn; discriminate | reflexivity]|].
+    destruct hit as [b'|]; [|intros H; exfalso; eapply K; [| | exact H]; [cbn; discriminate | reflexivity]].
+    intros H. rewrite fold_resumed in H by (cbn; discriminate). cbn in H. inversion H; subst. split; [reflexivity | eauto].
   Qed.
 End PopProof.
 
